@@ -17,7 +17,7 @@ META = dict(
     shards={"quick": 8, "thorough": 16},
     watchdog_s={"quick": 1500, "thorough": 5400},
     evaluations_counter="cases",
-    min={"v2_shapes": 100, "v1_shapes": 100, "permutation_slots_recovered": 100_000, "equivalence_weights": 100,
+    min={"v2_shapes": 100, "v1_shapes": 100, "permutation_slots_recovered": 100_000, "equivalence_weights": 100, "synthetic_triples": 20,
          "conversions_back": 100, "reference_identity_v2": 100},
     anchors=["tensor/qbits/awq/packed.py:pack_v2", "tensor/qbits/awq/packed.py:unpack_v2", "tensor/qbits/awq/packed.py:pack",
              "tensor/qbits/awq/packed.py:unpack", "tensor/qbits/awq/qbits.py:AWQBitsTensor.__init__",
@@ -148,6 +148,22 @@ def check_equivalence(ctx, oq, AWQBitsTensor, rng, out_f, in_f, degenerate):
     inn, _ = fp.inner(q)
     codes = oracles.plain(inn["_data"].unpack())  # grouped code matrix
     scale, zp = oracles.plain(inn["_scale"]), oracles.plain(inn["_zeropoint"])
+    if degenerate and rng.random() < 0.45:
+        # synthetic triples (what a loaded checkpoint may contain): arbitrary codes and zero-points, scales that are exact
+        # powers of two / one / tiny / huge. A zero scale is only paired with a zero zero-point (it is not recoverable from
+        # the scaled zero-point the AWQ form stores, and the group dequantizes to 0 whatever it is).
+        from optimum.quanto.tensor.qbits import QBitsTensor
+
+        codes = torch.from_numpy(rng.integers(0, 16, size=tuple(codes.shape))).to(torch.uint8)
+        pick = rng.integers(0, 8, size=tuple(scale.shape))
+        vals = torch.tensor([1.0, 2.0, 0.5, 0.0, 6e-8, 3e-5, 64.0, 0.013], dtype=torch.float64)[torch.from_numpy(pick)]
+        rnd = torch.from_numpy(np.exp(rng.uniform(np.log(1e-4), np.log(8.0), size=tuple(scale.shape))))
+        scale = torch.where(torch.from_numpy(rng.random(tuple(scale.shape)) < 0.6), vals, rnd).to(torch.float16)
+        zp = torch.from_numpy(rng.integers(0, 16, size=tuple(zp.shape))).to(zp.dtype)
+        zp = torch.where(scale == 0, torch.zeros_like(zp), zp)
+        q = QBitsTensor(oq.qint4, 0, 128, q.size(), q.stride(), codes.clone(), scale.clone(), zp.clone())
+        ctx.count("synthetic_triples")
+        desc = dict(desc, synthetic=True)
     try:
         a = AWQBitsTensor(oq.qint4, 0, 128, q.size(), q.stride(), codes.clone(), scale.clone(), zp.clone())
         ctx.count("equivalence_weights")
